@@ -19,6 +19,7 @@ def run(chk):
     r07d(chk)
     r07e(chk)
     r07f(chk)
+    r07g(chk)
 
 
 # ---------------------------------------------------------------------------
@@ -375,3 +376,41 @@ def r07f(chk, rid='R07.f'):
                 bad.append(f'{label} cut at {cut}: {got!r} instead of {whole!r}')
     chk.extra['chunk_schedules_evaluated'] = n
     chk.ob(rid, CODEC, 'IncrementalDecoder.decode', f'all {n} chunk schedules give the one-shot result', not bad, f'{len(bad)} differ, e.g. ' + ' | '.join(bad[:2]))
+
+
+def r07g(chk, rid='R07.g'):
+    chk.rule(rid, 'the incremental encoder agrees with the one-shot encoder, decided by evaluation: IncrementalEncoder.encode and the module-level encode (with detectencoding_unicode and _fixencoding evaluated from the source, the interpreter\'s codecs underneath) are evaluated for texts with and without an @charset rule - utf-8, utf-8-sig, iso-8859-1, utf-16 - with the encoding given or taken from the rule, cut into two chunks at every position: the concatenated output equals the one-shot output')
+    import codecs
+
+    from sa.absint import Evaluator, Obj, Raised
+
+    m = chk.repo.mod(CODEC)
+    fn = m.get('IncrementalEncoder.encode')
+    one = m.get('encode')
+    intr = {'codecs.lookup': codecs.lookup, 'codecs.getencoder': codecs.getencoder, 'ValueError': 'ValueError'}
+    texts = ['@charset "utf-8";a{c:"€"}', '@charset "utf-8-sig";a{c:"\xe9"}', '@charset "utf_8_sig";a{}', '@charset "iso-8859-1";a{c:"\xe9"}', '@charset "utf-16";a{}', 'a{top:0}', '@charset "ascii";a{}']
+    n = 0
+    bad = []
+    for t in texts:
+        for given in (None, 'utf-8', 'utf-8-sig', 'iso-8859-1'):
+            want = Evaluator(one, intrinsics=intr, module=m).run(input=t, errors='strict', encoding=given)
+            if isinstance(want, Raised):
+                continue  # e.g. a character the given encoding cannot represent: nothing to compare
+            want = want[0]
+            for cut in range(0, len(t) + 1):
+                me = Obj(encoder=None, encoding=given, _errors='strict', buffer='')
+                out = []
+                err = None
+                for i, c in enumerate((t[:cut], t[cut:])):
+                    r = Evaluator(fn, intrinsics=intr, model_types=(codecs.IncrementalEncoder, codecs.CodecInfo), module=m, cls='IncrementalEncoder').run(self=me, input=c, final=(i == 1))
+                    if isinstance(r, Raised):
+                        err = r
+                        break
+                    if r:  # "nothing yet" is the empty str, output is bytes (iterencode skips what is empty)
+                        out.append(r)
+                n += 1
+                got = err if err is not None else b''.join(out)
+                if got != want:
+                    bad.append(f'{t[:24]!r}... encoding={given!r} cut at {cut}: {got!r}, one-shot {want!r}')
+    chk.extra['encoder_schedules_evaluated'] = n
+    chk.ob(rid, CODEC, 'IncrementalEncoder.encode', f'all {n} (text, encoding, cut) cases give the one-shot result', not bad, f'{len(bad)} differ, e.g. ' + ' | '.join(bad[:2]))
